@@ -5,6 +5,7 @@ boundary counters, state letters, short records, threads) rendered by simk and
 parsed by the real code; oracle = the abstract facts the record was rendered from."""
 import itertools
 import os
+import re
 
 from vf.harness import use_world, outcome, freeze, sample, guarded, add_histories, history_of
 from vf.simk.world import World, Thread, CLK_TCK
@@ -33,12 +34,36 @@ def names(maxtok):
     for seed in [b"gnome-keyring-daemon", b"a" * 14 + b") S", b"Web Content (x) y z", "ééééééééé".encode(),
                  b"kworker/u16:3-events_unbound", b"((((((((((((((((", b"))))))))))))))))"]:
         out.append(seed[:15])
+    out.extend(status_key_names(maxtok))
     seen, res = set(), []
     for s in out:
         if s not in seen:
             seen.add(s)
             res.append(s)
     return res
+
+
+def status_key_names(maxtok):
+    """names that look like a line of the status record itself: for EVERY key the kernel prints there (taken from the record
+    simk renders, all its release variants), 'key:' + separator + digits, cut to the 15 bytes a name can hold from either end
+    (the tail of a long key followed by a value fits where the whole line does not)"""
+    from vf.simk.world import render_status
+    w, p = mk_world(0)
+    keys = []
+    for extra in ({}, {"x86tail": True}):
+        p.status_extra = extra
+        for line in render_status(w, p).split(b"\n"):
+            k = line.split(b":")[0]
+            if k and k not in keys:
+                keys.append(k)
+    out = []
+    for k in keys:
+        for sep in (b"", b"\t", b" "):
+            for dig in ((b"7",) if maxtok <= 3 else (b"7", b"0", b"12", b"18446744073709551615")):
+                full = k + b":" + sep + dig
+                out.append(full[-15:])
+                out.append(full[:15])
+    return out
 
 
 def mk_world(seed):
@@ -50,10 +75,22 @@ def mk_world(seed):
     return w, p
 
 
+def long_name(p):
+    """a name that fills the kernel's 15 bytes is completed from the CURRENT command line when the file name of its first
+    argument starts with those bytes (no command line - zombie, kernel thread - or no match: the 15 bytes themselves).
+    Command lines used here are NUL-separated without blanks."""
+    comm = p.comm
+    if len(comm) >= 15 and not p.zombie and p.cmdline:
+        base = p.cmdline.split(b"\0")[0].rsplit(b"/", 1)[-1]
+        if base.startswith(comm):
+            return base
+    return comm
+
+
 def expected(w, p):
     f = p.stat
     e = {}
-    e["name"] = os.fsdecode(p.comm)
+    e["name"] = os.fsdecode(long_name(p))
     e["ppid"] = p.ppid
     st = "Z" if p.zombie else p.state
     e["status"] = STATUS_NAME.get(st)
@@ -109,7 +146,8 @@ def classify(m, case, exp, got):
     if kind == "name":
         nm = case[2] if case[2] is not None else case[1]
         where = "thread-name" if case[2] is not None else "name"
-        if m in ("uids", "gids", "num_threads", "num_ctx_switches") and any(t in nm for t in (b"Uid:\t", b"Gid:\t", b"Threads:\t")):
+        if m in ("uids", "gids", "num_threads", "num_ctx_switches") and (
+                any(t in nm for t in (b"Uid:\t", b"Gid:\t", b"Threads:\t")) or re.search(br"[A-Za-z_]:\s*\d", nm)):
             feat = "status-key-in-name"
         elif b")" in nm:
             feat = "rparen"
@@ -139,6 +177,7 @@ def run_case(case, st=None):
         p.stat[n] = 11 + 7 * i
     p.uids, p.gids, p.vctx, p.nvctx = (1000, 1001, 1002, 1003), (2000, 2001, 2002, 2003), 31, 37
     p.status_extra = {}
+    p.cmdline = b"/bin/zz\0"
     k = case[0]
     if k == "status-tail":
         # the status record of another kernel release: lines AFTER the context-switch counters
@@ -254,6 +293,8 @@ def run_case(case, st=None):
                     p.tty_nr = v
                 elif f == "comm":
                     p.comm = v
+                elif f == "cmdline":
+                    p.cmdline = v
                 elif f == "state":
                     p.state = v
                 elif f == "zombie":
@@ -319,7 +360,7 @@ def dec(case):
     if c[0] == "name-enc":
         c[1] = c[1].encode("latin-1")
     if c[0] == "seq":
-        c[1] = [([(f, v.encode("latin-1") if f == "comm" else v) for f, v in ch], osv) for ch, osv in c[1]]
+        c[1] = [([(f, v.encode("latin-1") if f in ("comm", "cmdline") else v) for f, v in ch], osv) for ch, osv in c[1]]
     return tuple(c)
 
 
@@ -359,6 +400,19 @@ def build_cases(thorough):
             continue
         for osv in ((False, False, False), (False, True, False), (True, True, True)):
             cases.append(("seq", [([], osv[0]), (chg[a], osv[1]), (chg[b], osv[2])]))
+    # a name that fills the 15 bytes on ONE long-lived object while the command line / the name / the state change between the
+    # queries (title rewritten, exec of a program sharing the 15 bytes, exit): every pair of changes after a first resolved answer
+    c15, d15 = b"chromium-browse", b"chromium-browsX"
+    first = [("comm", c15), ("cmdline", b"/usr/bin/" + c15 + b"r\0--type=x\0")]
+    lchg = [[("cmdline", b"/usr/bin/" + c15 + b"\0")], [("cmdline", b"/opt/" + c15 + b"r-stable\0-v\0")],
+            [("cmdline", c15 + "r\u00e9".encode() + b"\0")], [("cmdline", b"/bin/zz\0")], [("cmdline", b"")],
+            [("cmdline", b"/usr/lib/" + d15 + b"YZ\0")], [("cmdline", b"/usr/bin/" + c15 + b"r\0--type=x\0")],
+            [("comm", d15)], [("comm", c15)], [("comm", b"short")], [("zombie", True)]]
+    for a, b in itertools.product(range(len(lchg)), repeat=2):
+        if ("zombie", True) in lchg[a]:
+            continue
+        for osv in ((False, False, False), (False, True, False), (True, True, True)):
+            cases.append(("seq", [(first, osv[0]), (lchg[a], osv[1]), (lchg[b], osv[2])]))
     cases.append(("manythreads", 3000))
     for nm_ in (b"plain", b"caf\xc3\xa9", b"\xe6\x97\xa5\xe6\x9c\xac", b"\xff\xfe", b"a b)c"):
         for enc_ in ("ascii", "latin-1", "utf-8"):
